@@ -36,6 +36,39 @@ type walker struct {
 	d       *Digest
 	seen    map[visitKey]int
 	regions *[]Region
+	fast    bool // hash only: no paths, no lines
+	h       uint64
+}
+
+// FastHash is the hash of the same walk as DigestOf without building the
+// lines: two structures with equal digests have equal fast hashes. (The value
+// is not comparable with Digest.Hash.)
+func FastHash(roots ...Root) uint64 {
+	w := &walker{d: &Digest{}, seen: map[visitKey]int{}, fast: true, h: 14695981039346656037}
+	for _, r := range roots {
+		w.mix(r.Name)
+		w.walk(reflect.ValueOf(r.V), "", "")
+	}
+	return w.h
+}
+
+func (w *walker) mix(s string) {
+	h := w.h
+	for i := 0; i < len(s); i++ {
+		h ^= uint64(s[i])
+		h *= 1099511628211
+	}
+	h ^= 0xff
+	h *= 1099511628211
+	w.h = h
+}
+
+// sub extends a path (not in fast mode).
+func (w *walker) sub(path, s string) string {
+	if w.fast {
+		return ""
+	}
+	return path + s
 }
 
 type visitKey struct {
@@ -81,6 +114,10 @@ func digestRegions(withRegions bool, roots ...Root) (*Digest, []Region) {
 }
 
 func (w *walker) leaf(path, own, val string) {
+	if w.fast {
+		w.mix(val)
+		return
+	}
 	w.d.Lines = append(w.d.Lines, path+" = "+val)
 	w.d.Own = append(w.d.Own, own)
 }
@@ -133,6 +170,10 @@ func (w *walker) walk(v reflect.Value, path, own string) {
 		if v.IsNil() {
 			w.leaf(path, own, "func(nil)")
 		} else {
+			if w.fast {
+				w.leaf(path, own, strconv.FormatUint(uint64(v.Pointer()), 16))
+				return
+			}
 			name := "?"
 			if f := runtime.FuncForPC(v.Pointer()); f != nil {
 				name = f.Name()
@@ -156,6 +197,11 @@ func (w *walker) walk(v reflect.Value, path, own string) {
 			return
 		}
 		w.seen[k] = len(w.seen)
+		if w.fast {
+			w.mix("*")
+			w.walk(v.Elem(), "", own)
+			return
+		}
 		w.walk(v.Elem(), path+"<*"+typeName(v.Type())+">", own)
 	case reflect.Interface:
 		if v.IsNil() {
@@ -164,6 +210,13 @@ func (w *walker) walk(v reflect.Value, path, own string) {
 		}
 		w.walk(v.Elem(), path, own)
 	case reflect.Struct:
+		if w.fast {
+			w.mix(v.Type().String())
+			for i := 0; i < v.NumField(); i++ {
+				w.walk(v.Field(i), "", "")
+			}
+			return
+		}
 		tn := typeName(v.Type())
 		if v.NumField() == 0 {
 			w.leaf(path, own, tn+"{}")
@@ -176,7 +229,7 @@ func (w *walker) walk(v reflect.Value, path, own string) {
 		}
 	case reflect.Array:
 		for i := 0; i < v.Len(); i++ {
-			w.walk(v.Index(i), path+"["+strconv.Itoa(i)+"]", own)
+			w.walk(v.Index(i), w.sub(path, "["+strconv.Itoa(i)+"]"), own)
 		}
 	case reflect.Slice:
 		if v.IsNil() {
@@ -184,30 +237,29 @@ func (w *walker) walk(v reflect.Value, path, own string) {
 			return
 		}
 		n, c := v.Len(), v.Cap()
-		w.leaf(path+".len", own, strconv.Itoa(n))
-		w.leaf(path+".cap", own, strconv.Itoa(c))
+		w.leaf(w.sub(path, ".len"), own, strconv.Itoa(n))
+		w.leaf(w.sub(path, ".cap"), own, strconv.Itoa(c))
 		if w.regions != nil && c > 0 {
 			lo := v.Pointer()
 			*w.regions = append(*w.regions, Region{lo, lo + uintptr(c)*v.Type().Elem().Size(), own + "[]", depthOf(path)})
 		}
 		if v.Type().Elem().Kind() == reflect.Uint8 {
 			// byte strings: content up to len as a string, spare capacity hashed
-			full := v.Slice(0, c)
-			b := make([]byte, c)
-			for i := 0; i < c; i++ {
-				b[i] = byte(full.Index(i).Uint())
-			}
+			b := v.Slice(0, c).Bytes()
 			w.leaf(path, own, strDigest(string(b[:n])))
 			if c > n {
-				w.leaf(path+"[spare]", own, strDigest(string(b[n:])))
+				w.leaf(w.sub(path, "[spare]"), own, strDigest(string(b[n:])))
 			}
 			return
 		}
 		full := v.Slice(0, c)
 		for i := 0; i < c; i++ {
-			p := path + "[" + strconv.Itoa(i) + "]"
-			if i >= n {
-				p = path + "[+" + strconv.Itoa(i) + "]"
+			p := ""
+			if !w.fast {
+				p = path + "[" + strconv.Itoa(i) + "]"
+				if i >= n {
+					p = path + "[+" + strconv.Itoa(i) + "]"
+				}
 			}
 			w.walk(full.Index(i), p, own)
 		}
@@ -221,7 +273,7 @@ func (w *walker) walk(v reflect.Value, path, own string) {
 			lo := v.Pointer()
 			*w.regions = append(*w.regions, Region{lo, lo + 8, own + "(map)", depthOf(path)})
 		}
-		w.leaf(path+".len", own, strconv.Itoa(v.Len()))
+		w.leaf(w.sub(path, ".len"), own, strconv.Itoa(v.Len()))
 		type ent struct {
 			k string
 			v reflect.Value
@@ -236,7 +288,10 @@ func (w *walker) walk(v reflect.Value, path, own string) {
 		sort.Slice(ents, func(i, j int) bool { return ents[i].k < ents[j].k })
 		for _, e := range ents {
 			k := strings.TrimPrefix(e.k, " = ")
-			w.walk(e.v, path+"["+k+"]", own)
+			if w.fast {
+				w.mix(k)
+			}
+			w.walk(e.v, w.sub(path, "["+k+"]"), own)
 		}
 	default:
 		w.leaf(path, own, "?"+v.Kind().String())
